@@ -1,6 +1,7 @@
 //! One module per property: generator configuration, oracle clauses, non-triviality rule.
 use crate::engine::{Plan, Tier};
 
+pub mod c01;
 pub mod c12;
 
 pub const ALL: &[&str] = &[
@@ -10,6 +11,7 @@ pub const ALL: &[&str] = &[
 
 pub fn plan(id: &str, tier: Tier) -> Option<Plan> {
     match id {
+        "C01" => Some(c01::plan(tier)),
         "C12" => Some(c12::plan(tier)),
         _ => None,
     }
